@@ -701,7 +701,23 @@ func init() {
 	math1("Floor", math.Floor, "floor")
 	math1("Ceil", math.Ceil, "ceil")
 	math1("Trunc", math.Trunc, "trunc")
-	math1("Abs", math.Abs, "")
+	intrinsics["math.Abs"] = func(e *Exec, fn *ssa.Function, args []Value, caller *Frame) (Value, *GoPanic) {
+		switch x := args[0].(type) {
+		case FloatV:
+			return FloatV{math.Abs(x.f)}, nil
+		case RealV:
+			// exact: one fork on the sign
+			c := e.ctx
+			if e.branch(c.RCmp(OpRLe, c.RealConstInt(0), x.t), nil) {
+				return x, nil
+			}
+			return RealV{c.RBin(OpRSub, c.RealConstInt(0), x.t)}, nil
+		case OpaqueF:
+			return x, nil
+		}
+		e.unsupported("math.Abs on %T", args[0])
+		return nil, nil
+	}
 	math1("Sqrt", math.Sqrt, "")
 	math1("Log2", math.Log2, "")
 	intrinsics["math.Pow"] = func(e *Exec, fn *ssa.Function, args []Value, caller *Frame) (Value, *GoPanic) {
